@@ -12,7 +12,7 @@ import (
 
 func init() { Registry["C14"] = runC14 }
 
-const explanationC14 = "Decides structural necessary conditions of C14 — that the published schemas and the generated validators are two translations of the same ValidationExpr that agree keyword by keyword: (R14.1) every validation keyword is consumed by the three schema builders (JSON schema, OpenAPI v3 schemafier, OpenAPI v2 parameter validations) as it is by the validation code generator; (R14.2) keyword fidelity — each schema field is assigned from the like-named keyword (length keywords to minItems/maxItems for arrays and minLength/maxLength otherwise), and the v2 helpers set the inclusive/exclusive flag that belongs to the keyword, identically for parameters, headers and items; (R14.3) the generated guards use the comparison the schema keyword means (inclusive minimum ⇔ `<`, exclusive ⇔ `<=`, …; shared with C04/R04.3); (R14.4) required lists are built from the validation's Required filtered only by MustGenerate, and documented parameters take their required flag and location from the collection being walked (shared with C07/R07.4); (R14.5) the server decoder's must-validate decisions consult every collection and accumulate (shared with C04/R04.9), so that what the schema forbids is actually rejected; (R14.7) the accessors of HTTPEndpointExpr that feed both the server templates and the OpenAPI builders show no deviance lint. shared R13.6 (the copy of a validation carries each keyword to the like-named field, or server and document diverge). NOT decided: acceptance equivalence on values (needs execution of generated code and a schema validator)."
+const explanationC14 = "Decides structural necessary conditions of C14 — that the published schemas and the generated validators are two translations of the same ValidationExpr that agree keyword by keyword: (R14.1) every validation keyword is consumed by the three schema builders (JSON schema, OpenAPI v3 schemafier, OpenAPI v2 parameter validations) as it is by the validation code generator; (R14.2) keyword fidelity — each schema field is assigned from the like-named keyword (length keywords to minItems/maxItems for arrays and minLength/maxLength otherwise), and the v2 helpers set the inclusive/exclusive flag that belongs to the keyword, identically for parameters, headers and items; (R14.3) the generated guards use the comparison the schema keyword means (inclusive minimum ⇔ `<`, exclusive ⇔ `<=`, …; shared with C04/R04.3); (R14.4) required lists are built from the validation's Required filtered only by MustGenerate, and documented parameters take their required flag and location from the collection being walked (shared with C07/R07.4); (R14.5) the server decoder's must-validate decisions consult every collection and accumulate (shared with C04/R04.9), so that what the schema forbids is actually rejected; (R14.7) the accessors of HTTPEndpointExpr that feed both the server templates and the OpenAPI builders show no deviance lint. shared R13.6 (the copy of a validation carries each keyword to the like-named field, or server and document diverge). shared R16.1/R16.2 (path values reach the validators unescaped exactly once, with url.PathUnescape). (R14.8) codegen.Walk visits the element of an array and the key and element of a map on every path that does not return an error. NOT decided: acceptance equivalence on values (needs execution of generated code and a schema validator)."
 
 func runC14(c *an.Ctx) string {
 	r141Consumes(c)
@@ -22,6 +22,8 @@ func runC14(c *an.Ctx) string {
 	r074Walkers(c)
 	r049MustValidate(c)
 	r147EndpointAccessors(c)
+	r148WalkChildren(c, "R14.8")
+	r16Vars(c)        // shared with C16 (rule ids R16.1/R16.2): the path values the generated decoder validates are the request's own, unescaped once with the path variant (a '+' stays a '+'): what the schema documents for a path parameter is what the validator sees
 	r136Exhaustive(c) // shared with C13 (rule id R13.6): server validators are generated from copies of the validations the documents are built from
 	return explanationC14
 }
@@ -312,4 +314,57 @@ func r147EndpointAccessors(c *an.Ctx) {
 	}
 	c.Okf(rule, "expr.HTTPEndpointExpr#accessors", "%d methods: none of the deviance lints fires", n)
 	c.Floor(rule, n, 10, "methods of HTTPEndpointExpr")
+}
+
+// r148WalkChildren (R14.8): codegen.Walk is how the generators find out whether a type carries validations at all
+// (hasValidations) and collect what to validate. It must visit every child attribute: on every path through the
+// *Array arm that does not propagate an error the element is walked, on every such path through the *Map arm the key
+// and the element are walked. A child that is skipped under some condition loses its validations: the server accepts
+// what the schema - built by another traversal - forbids.
+func r148WalkChildren(c *an.Ctx, rule string) {
+	f := c.MustFunc(rule, "codegen", "walk")
+	if f == nil {
+		return
+	}
+	fn := c.SSAFunc(f)
+	if fn == nil {
+		c.Undecidedf(rule, f.Name, f.Decl.Pos(), "no SSA function")
+		return
+	}
+	t := an.BuildPathTable(fn, an.PathOpts{MaxPaths: 4000})
+	c.Stats["paths_enumerated"] += len(t.Paths)
+	c.Stats["functions_tabled"]++
+	children := map[string][]string{"Array": {"ElemType"}, "Map": {"KeyType", "ElemType"}}
+	rows := 0
+	for kind, kids := range children {
+		atom := "p0.Type.(*expr." + kind + ")?#1"
+		for _, p := range t.Paths {
+			in, errPath := false, false
+			for _, a := range p.Atoms {
+				if a.Term == atom && a.Val {
+					in = true
+				}
+				// a child walk (or the walker itself) failed: the error is returned, the rest is rightly skipped
+				if !a.Val && strings.HasSuffix(a.Term, " == nil)") && (strings.HasPrefix(a.Term, "(codegen.walk(") || strings.HasPrefix(a.Term, "(dyn:p1(")) {
+					errPath = true
+				}
+			}
+			if !in || errPath || p.Exit != "return" {
+				continue
+			}
+			rows++
+			calls := strings.Join(p.CallEffects(), " ; ")
+			for _, k := range kids {
+				if !strings.Contains(calls, "codegen.walk(p0.Type.(*expr."+kind+")?#0."+k+",") {
+					c.Failf(rule, f.Name+"#"+kind+"."+k, p.Pos, "on the path [%s] a %s is left without its %s being walked: validations declared there are never seen by the generators", p.GuardString(), strings.ToLower(kind), k)
+					return
+				}
+			}
+		}
+	}
+	if rows == 0 {
+		c.Undecidedf(rule, f.Name, f.Decl.Pos(), "no path through the array or map arm found")
+		return
+	}
+	c.Okf(rule, f.Name+"#children", "%d paths through the array and map arms: element (and key) are walked on every path that does not return an error", rows)
 }
